@@ -163,7 +163,7 @@ func (r *Run) finish(checkerCmd string) int {
 			}
 		}
 	}
-	var tb, as []string
+	tb, as := []string{}, []string{}
 	for t := range r.Trusted {
 		tb = append(tb, t)
 	}
@@ -179,8 +179,8 @@ func (r *Run) finish(checkerCmd string) int {
 	cov := map[string]interface{}{
 		"obligations": obl, "discharged": dis, "checker_cmd": checkerCmd, "trusted_base": tb,
 		"by_backend": byB, "solver_s": float64(int(ss*100)) / 100, "samples": samples,
-		"functions_under_contract": r.Funcs, "stale_contracts": r.Stale, "bounded_standins": r.Bounded,
-		"known_findings": r.Known, "undischarged": failed, "engine_errors": r.engineErr,
+		"functions_under_contract": r.Funcs, "stale_contracts": nn(r.Stale), "bounded_standins": nn(r.Bounded),
+		"known_findings": nn(r.Known), "undischarged": nn(failed), "engine_errors": nn(r.engineErr),
 	}
 	for k, v := range r.Notes {
 		cov[k] = v
@@ -214,4 +214,11 @@ func (r *Run) finish(checkerCmd string) int {
 		return 2
 	}
 	return 0
+}
+
+func nn(s []string) []string {
+	if s == nil {
+		return []string{}
+	}
+	return s
 }
